@@ -9,3 +9,10 @@ pub mod dummydiffcodec;
 pub mod diffcodec;
 pub mod rawval;
 pub mod rawcodec_gen;
+pub mod jvmsframe;
+pub mod rawgolden;
+pub mod c01facts;
+pub mod c01model;
+pub mod c01parse;
+pub mod c01gen;
+pub mod c07tree;
